@@ -608,7 +608,14 @@ impl NativeFunctionCall {
     fn divide_op(&self, params: &[Rc<Value>]) -> Result<Rc<dyn RTObject>, StoryError> {
         match params[0].value {
             ValueType::Int(op1) => match params[1].value {
-                ValueType::Int(op2) => Ok(Rc::new(Value::new::<i32>(op1 / op2))),
+                ValueType::Int(op2) => {
+                    if op2 == 0 {
+                        return Err(StoryError::InvalidStoryState(
+                            "Division by zero.".to_owned(),
+                        ));
+                    }
+                    Ok(Rc::new(Value::new::<i32>(op1.wrapping_div(op2))))
+                }
                 _ => Err(StoryError::InvalidStoryState(
                     "Operation not available for type.".to_owned(),
                 )),
@@ -850,7 +857,14 @@ impl NativeFunctionCall {
     fn mod_op(&self, params: &[Rc<Value>]) -> Result<Rc<dyn RTObject>, StoryError> {
         match params[0].value {
             ValueType::Int(op1) => match params[1].value {
-                ValueType::Int(op2) => Ok(Rc::new(Value::new::<i32>(op1 % op2))),
+                ValueType::Int(op2) => {
+                    if op2 == 0 {
+                        return Err(StoryError::InvalidStoryState(
+                            "Modulo by zero.".to_owned(),
+                        ));
+                    }
+                    Ok(Rc::new(Value::new::<i32>(op1.wrapping_rem(op2))))
+                }
                 _ => Err(StoryError::InvalidStoryState(
                     "Operation not available for type.".to_owned(),
                 )),
